@@ -138,6 +138,14 @@ def cases(tier, rng):
         for i in ((n - 2, n // 2 + 1) if big else (n - 2,)):
             yield {"op": "read", "fmt": fmt, "header": header, "ents": _inject(fmt, ents, i, kind), "i": i, "kind": kind, "k": 500000, "gz": False,
                    "lazy": False, "nl": True, "via": "count"}
+    # custom delimited formats with a column-name header (get_bufferclass_for_datatype): file A read with an all-text table type,
+    # then file B with the SAME header read with numeric column types and a non-numeric value (two inputs in one process)
+    for n in ((3, 5) if big else (3,)):
+        for i in range(n):
+            for first in ("str", "int", None):
+                for k in (5, 40, 1000):
+                    for lazy in (True, False):
+                        yield {"op": "custom_pair", "n": n, "i": i, "first": first, "k": k, "lazy": lazy, "tok": rng.choice(["5x", "x", "-", "1.5"])}
     for _ in range(300 if big else 60):
         w = rng.randint(1, 6)
         i, j = rng.randint(0, 5), rng.randrange(w)
@@ -150,6 +158,8 @@ def cases(tier, rng):
 
 
 def nontrivial(c):
+    if c["op"] == "custom_pair":
+        return c["first"] is not None
     if c["op"] != "read":
         return True
     return c["i"] > 0 or c["k"] < sum(len(e) for e in c["ents"])
@@ -167,6 +177,8 @@ def impl(c):
         return c["offset"] // c["w"]
     if c["op"] == "row_ragged":
         return int(np.searchsorted(np.cumsum(c["lengths"]), c["offset"], side="right"))
+    if c["op"] == "custom_pair":
+        return _custom_pair(c)
     bt, suffix = c01._buffer_type(c["fmt"])
     path = os.path.join(c01._tmpdir(), f"v{os.getpid()}{suffix}" + (".gz" if c["gz"] else ""))
     with (gzip.open if c["gz"] else open)(path, "wb") as fh:
@@ -198,9 +210,44 @@ def impl(c):
         return {"err": "other:" + type(e).__name__}
 
 
+def _custom_pair(c):
+    import bionumpy as bnp
+    from bionumpy.io.exceptions import FormatException
+    from bionumpy.bnpdataclass import make_dataclass
+    from bionumpy.io.delimited_buffers import get_bufferclass_for_datatype
+    rows = [[f"n{j}", str(10 + j), str(j)] for j in range(c["n"])]
+    good = "name,count,size\n" + "".join(",".join(r) + "\n" for r in rows)
+    rows[c["i"]][1] = c["tok"]
+    bad = "name,count,size\n" + "".join(",".join(r) + "\n" for r in rows)
+    pa, pb = (os.path.join(c01._tmpdir(), f"cp{os.getpid()}{x}.csv") for x in "ab")
+    open(pa, "w").write(good)
+    open(pb, "w").write(bad)
+    types = {"str": [("name", str), ("count", str), ("size", str)], "int": [("name", str), ("count", int), ("size", int)]}
+    try:
+        if c["first"]:
+            A = get_bufferclass_for_datatype(make_dataclass(types[c["first"]]), delimiter=",", has_header=True)
+            with bnp.open(pa, buffer_type=A, lazy=c["lazy"]) as f:
+                c01.table_rows(f.read())
+    except Exception as e:
+        return {"err": "other:first-read:" + type(e).__name__}
+    try:
+        B = get_bufferclass_for_datatype(make_dataclass(types["int"]), delimiter=",", has_header=True)
+        n_rows = 0
+        with bnp.open(pb, buffer_type=B, lazy=c["lazy"]) as f:
+            for chunk in f.read_chunks(min_chunk_size=c["k"]):
+                n_rows += len(c01.table_rows(chunk))
+        return {"table": n_rows}
+    except FormatException as e:
+        return {"err": "format", "line": int(e.line_number)}
+    except Exception as e:
+        return {"err": "other:" + type(e).__name__}
+
+
 def oracle(c):
     if c["op"] in ("row_matrix", "row_ragged"):
         return c["row"]
+    if c["op"] == "custom_pair":
+        return {"must_error": True, "line_lo": c["i"], "line_hi": c["i"]}
     n = LINES.get(c["fmt"], 1)
     lo, hi = c["i"] * n, c["i"] * n + n - 1
     if c["kind"].startswith("ncols"):
@@ -257,6 +304,10 @@ def _chunk_mixed(c):
 
 
 def agree(c, got, exp):
+    if c["op"] == "custom_pair":
+        if not isinstance(got, dict) or "err" not in got:
+            return False
+        return got["err"] != "format" or exp["line_lo"] <= got["line"] <= exp["line_hi"]
     if c["op"] != "read":
         return got == exp
     if not isinstance(got, dict) or "err" not in got:
@@ -269,6 +320,8 @@ def agree(c, got, exp):
 
 
 def model_request(c):
+    if c["op"] == "custom_pair":
+        return None
     if c["op"] != "read":
         return c
     if c.get("via") == "count":
@@ -300,6 +353,8 @@ def agree_model(c, got, m):
 
 
 def finding_key(c, got, exp):
+    if c["op"] == "custom_pair":
+        return "custom-header-format:" + ("after-reading-another-table-type" if c["first"] else "single") + (":yields-table" if isinstance(got, dict) and "table" in got else ":wrong-line")
     if c["op"] != "read":
         return c["op"]
     if isinstance(got, dict) and "table" in got:
